@@ -20,7 +20,8 @@
    the `fix:` commits there are `_partial` theorems under an explicit guard and `_refuted`
    theorems closed by vm_compute on a witness. *)
 From Coq Require Import ZArith List.
-From DRF Require Import Base.DivLemmas Base.Runs Model.Ld80 Model.ReaderCore Proofs.ReaderProofs.
+From Coq Require Import Permutation.
+From DRF Require Import Base.DivLemmas Base.Runs Model.Ld80 Model.ReaderCore Proofs.ReaderProofs Proofs.ReaderMultiProofs.
 Import ListNotations.
 Local Open Scope Z_scope.
 
@@ -183,3 +184,75 @@ Theorem C08_vector_fails_closed_refuted_squeeze_all :
     read_vector_raw SqueezeAll (fun r => r) false 2 ExactRational c fs s L = VOk [2] [[38; 39]].
 Proof. exact vector_fails_closed_refuted_squeeze_all. Qed.
 Print Assumptions C08_vector_fails_closed_refuted_squeeze_all.
+
+(* ================================================================== several top-level directories
+   (the reading side of C11).  `dirs_ok c dirs`: every directory satisfies FilesInv and no file
+   period is recorded in two directories (NoDup of all file times); decidable by `dirs_ok_b`.
+   `dirs_abs dirs k` = what any directory says about index k (first directory that has it; under
+   dirs_ok at most one has).  The implementation puts the pieces of every directory into one dict,
+   sorts by key and merges adjacent pieces, so the result IS the canonical `runs` of the union:
+   blocks that are adjacent across directories are merged. *)
+
+Theorem C08_multi_dirs_ok_checker_sound : forall (V : Type) c (dirs : list (list (rfile V))),
+  dirs_ok_b c dirs = true -> dirs_ok c dirs.
+Proof. exact (@dirs_ok_b_sound). Qed.
+Print Assumptions C08_multi_dirs_ok_checker_sound.
+
+(* the union recording is what any one of the files says, independent of the directory order *)
+Theorem C08_multi_union_map : forall (V : Type) c (dirs : list (list (rfile V))) k v, dirs_ok c dirs ->
+  (dirs_abs dirs k = Some v <-> exists f, In f (concat dirs) /\ file_abs f k = Some v).
+Proof. exact (@dirs_abs_char). Qed.
+Print Assumptions C08_multi_union_map.
+
+(* (1) reading several directories = the runs of the union of all sessions' samples *)
+Theorem C08_multi_reader_refines : forall (V : Type) c (dirs : list (list (rfile V))) s e,
+  dirs_ok c dirs ->
+  read_multi (fun v => v) ExactRational c dirs s e = runs (dirs_abs dirs) s e.
+Proof. exact (@reader_multi_refines). Qed.
+Print Assumptions C08_multi_reader_refines.
+
+Theorem C08_multi_subchannel_is_column : forall (V : Type) c (W : Type) (sel : V -> W)
+  (dirs : list (list (rfile V))) s e, dirs_ok c dirs ->
+  read_multi sel ExactRational c dirs s e
+  = map (bmap sel) (read_multi (fun v => v) ExactRational c dirs s e).
+Proof. exact (@reader_multi_column). Qed.
+Print Assumptions C08_multi_subchannel_is_column.
+
+Theorem C08_multi_lengths_agree : forall (V : Type) c (dirs : list (list (rfile V))) s e,
+  dirs_ok c dirs ->
+  get_continuous_blocks_multi ExactRational c dirs s e
+  = lens (read_multi (fun v => v) ExactRational c dirs s e).
+Proof. exact (@lengths_agree_multi). Qed.
+Print Assumptions C08_multi_lengths_agree.
+
+(* one directory: nothing changes *)
+Theorem C08_multi_single : forall (V : Type) c (fs : list (rfile V)) s e,
+  read_multi (fun v => v) ExactRational c [fs] s e = read ExactRational c fs s e.
+Proof. exact (@reader_multi_single). Qed.
+Print Assumptions C08_multi_single.
+
+(* (2) the merged bounds are (min, max) of the union recording's domain; (None, None) iff it is
+   empty; needs only FilesInv of every directory *)
+Theorem C08_multi_bounds_are_extremes : forall (V : Type) c (dirs : list (list (rfile V))),
+  Forall (FilesInv c) dirs ->
+  match get_bounds_multi dirs with
+  | (Some a, Some b) => dirs_abs dirs a <> None /\ dirs_abs dirs b <> None /\
+                        forall k, dirs_abs dirs k <> None -> a <= k <= b
+  | (None, None) => forall k, dirs_abs dirs k = None
+  | _ => False
+  end.
+Proof. exact (@bounds_multi_are_extremes). Qed.
+Print Assumptions C08_multi_bounds_are_extremes.
+
+(* (3) neither depends on the order in which the directories are given to the reader *)
+Theorem C08_multi_read_order_independent : forall (V : Type) c (dirs dirs' : list (list (rfile V))) s e,
+  Permutation dirs dirs' -> dirs_ok c dirs ->
+  read_multi (fun v => v) ExactRational c dirs s e = read_multi (fun v => v) ExactRational c dirs' s e.
+Proof. exact (@reader_multi_order). Qed.
+Print Assumptions C08_multi_read_order_independent.
+
+Theorem C08_multi_bounds_order_independent : forall (V : Type) c (dirs dirs' : list (list (rfile V))),
+  Permutation dirs dirs' -> Forall (FilesInv c) dirs ->
+  get_bounds_multi dirs = get_bounds_multi dirs'.
+Proof. exact (@bounds_multi_order). Qed.
+Print Assumptions C08_multi_bounds_order_independent.
